@@ -498,6 +498,12 @@ class Run:
                                       'called': 0})
                     else:
                         blk = [dict(e) for e in tmp]
+                        for e in blk:
+                            # what lies at the target is looked at after the call has returned - by then the owner
+                            # may have ended the build and rolled it back or committed it; the physical state at the
+                            # end of a straggler's call is therefore not judged (the record and the view are)
+                            if e['ev'] == 'bf_end' and 'real' in e:
+                                e['real'] = 'file' if e['out'] == 'ok' else 'none'
                         if blk:
                             blk[0]['_win'] = (seq0, sched.seq)
                         before.append(blk)
